@@ -23,4 +23,17 @@ MUTANTS = [
  {"id": "probe-unbalanced-open-accepted", "kind": "break", "edits": [(P, "            if !stack.is_empty() {\n                return Err(PatternError::Alternate);\n            }", "            if stack.len() > 1 {\n                return Err(PatternError::Alternate);\n            }")], "expect": ["D4-BALANCE"]},
  {"id": "probe-close-before-open-accepted", "kind": "break", "edits": [(P, "} else if ch == '}' && stack.pop().is_none() {\n                    return Err(PatternError::Alternate);\n                }", "} else if ch == '}' {\n                    stack.pop();\n                }")], "expect": ["D4-BALANCE"]},
  {"id": "probe-alternate-only-when-open-brace", "kind": "break", "edits": [(P, "if pattern.contains('{') || pattern.contains('}') {", "if pattern.contains('{') {")], "expect": []},
+ # counter / helper-predicate spellings of the brace balance scan (benign/m-pattern-1, benign/pattern-1) and their one-line breakages
+ {"id": "counter-form-benign", "kind": "benign", "edits": [{"patch": "/verif/benign/m-pattern-1/patch.diff"}]},
+ {"id": "helper-form-benign", "kind": "benign", "edits": [{"patch": "/verif/benign/pattern-1/patch.diff"}]},
+ {"id": "counter-close-at-zero-ignored", "kind": "break", "edits": [{"patch": "/verif/benign/m-pattern-1/patch.diff"}, ("src/pattern.rs", "                    '}' if depth == 0 => return Err(PatternError::Alternate),\n                    '}' => depth -= 1,", "                    '}' if depth == 0 => {}\n                    '}' => depth -= 1,")], "expect": ["D4-BALANCE"]},
+ {"id": "counter-open-not-counted", "kind": "break", "edits": [{"patch": "/verif/benign/m-pattern-1/patch.diff"}, ("src/pattern.rs", "                    '{' => depth += 1,", "                    '{' => depth = 1,")], "expect": ["D4-BALANCE"]},
+ {"id": "counter-unclosed-accepted", "kind": "break", "edits": [{"patch": "/verif/benign/m-pattern-1/patch.diff"}, ("src/pattern.rs", "            if depth != 0 {\n                return Err(PatternError::Alternate);\n            }", "            if depth > 1 {\n                return Err(PatternError::Alternate);\n            }")], "expect": ["D4-BALANCE"]},
+ {"id": "counter-starts-at-one", "kind": "break", "edits": [{"patch": "/verif/benign/m-pattern-1/patch.diff"}, ("src/pattern.rs", "let mut depth: usize = 0;", "let mut depth: usize = 1;")], "expect": ["D4-BALANCE"]},
+ {"id": "counter-dispatch-misses-close-brace", "kind": "break", "edits": [{"patch": "/verif/benign/m-pattern-1/patch.diff"}, ("src/pattern.rs", "if pattern.contains(['{', '}']) {", "if pattern.contains(['{']) {")], "expect": ["D4-DISPATCH"]},
+ {"id": "helper-verdict-inverted", "kind": "break", "edits": [{"patch": "/verif/benign/pattern-1/patch.diff"}, ("src/pattern.rs", "if !Self::braces_balanced(pattern) {", "if Self::braces_balanced(pattern) {")], "expect": ["D4-BALANCE"]},
+ {"id": "helper-returns-true-at-end", "kind": "break", "edits": [{"patch": "/verif/benign/pattern-1/patch.diff"}, ("src/pattern.rs", "        depth == 0\n    }", "        let _ = depth;\n        true\n    }")], "expect": ["D4-BALANCE"]},
+ {"id": "helper-close-does-not-decrement", "kind": "break", "edits": [{"patch": "/verif/benign/pattern-1/patch.diff"}, ("src/pattern.rs", "                depth -= 1;\n", "")], "expect": ["D4-BALANCE"]},
+ {"id": "helper-on-other-text", "kind": "break", "edits": [{"patch": "/verif/benign/pattern-1/patch.diff"}, ("src/pattern.rs", "if !Self::braces_balanced(pattern) {", "if !Self::braces_balanced(&pattern[1..]) {")], "expect": ["D4-BALANCE"]},
+
 ]
